@@ -77,8 +77,70 @@ def run_case(cuts: list[int] | None, n_data: int, name: str | None, expected: st
         return out
 
 
+def name_in_force(ctx: Ctx) -> None:
+    """'Configured' is whatever the application last set on the client (constructor argument or the public expected_name setter) by the time the
+    server hello is evaluated: set before the connect, between start_connection() and finish_connection(), or while connect() is still
+    resolving the host name; set to a name or cleared."""
+    from aioesphomeapi.core import BadNameAPIError
+
+    res = ctx.res
+    idx = 0
+    for when in ("before-start", "between-phases", "during-resolve"):
+        for announced in ("dev", "renamed"):
+            for initial, final in ((None, "dev"), ("dev", None), ("dev", "renamed"), ("renamed", "dev"), ("old", "old"), (None, None)):
+                idx += 1
+                if not ctx.mine(500 + idx):
+                    continue
+                with Sim() as sim:
+                    cfg = DeviceConfig(name=announced, noise_psk=PSK, noise_name=announced.encode())
+                    dev = sim.device(cfg)
+                    kw: dict[str, Any] = {"noise_psk": base64.b64encode(PSK).decode()}
+                    if initial is not None:
+                        kw["expected_name"] = initial
+                    if when == "during-resolve":
+                        sim.net.dns["dev.example"] = ("delay", 2.0, ["10.0.0.1"])
+                        cli = sim.client("dev.example", **kw)
+                        c0 = sim.call("connect", lambda: cli.connect(on_stop=sim.on_stop_cb(), login=False))
+                        sim.run_for(1.0)
+                        cli.expected_name = final
+                    elif when == "between-phases":
+                        cli = sim.client(**kw)
+                        c1 = sim.call("start", lambda: cli.start_connection(on_stop=sim.on_stop_cb()))
+                        sim.run(until=lambda: c1.done, max_time=sim.clock + 100)
+                        if c1.outcome != "ok":
+                            res.inconclusive.append(f"C03 part S: start_connection failed {c1.exc!r}")
+                            continue
+                        cli.expected_name = final
+                        c0 = sim.call("finish", lambda: cli.finish_connection(login=False))
+                    else:
+                        cli = sim.client(**kw)
+                        cli.expected_name = final
+                        c0 = sim.call("connect", lambda: cli.connect(on_stop=sim.on_stop_cb(), login=False))
+                    sim.run(until=lambda: c0.done, max_time=sim.clock + 200)
+                    res.evaluations += 1
+                    res.count(f"S/name-in-force/{when}")
+                    res.sig("S-name-in-force", when, announced, initial, final)
+                    case = {"part": "S", "noise_name": announced, "expected_initially": initial, "expected_in_force": final, "set": when}
+                    ok = final is None or final == announced
+                    if sim.harness_errors:
+                        res.inconclusive.append("C03 part S: " + sim.harness_errors[0][-300:])
+                    elif ok and c0.outcome != "ok":
+                        res.violation("C03/S/name-accepted-case-failed", f"expected_name was {initial!r}, set to {final!r} {when}; device announces {announced!r}: "
+                                      f"connect failed with {c0.exc!r}", case, trace=sim.trace(30))
+                    elif not ok and c0.outcome == "ok":
+                        res.violation("C03/S/name-mismatch-accepted", f"expected_name was {initial!r}, set to {final!r} {when}; device announces {announced!r}: "
+                                      f"the session was accepted", case, trace=sim.trace(30))
+                    elif not ok and (not isinstance(c0.exc, BadNameAPIError) or c0.exc.received_name != announced):
+                        res.violation("C03/S/name-mismatch-error", f"{when}: raised {c0.exc!r}, expected BadNameAPIError({announced!r})", case, trace=sim.trace(30))
+                    if c0.outcome == "ok":
+                        d = sim.call("bye", lambda: cli.disconnect(force=True))
+                        sim.run(until=lambda: d.done, max_time=sim.clock + 5)
+
+
 def shard(ctx: Ctx) -> None:
     from aioesphomeapi.core import BadNameAPIError, ConnectionNotEstablishedAPIError
+
+    name_in_force(ctx)
 
     res = ctx.res
     # length of the device's first chunk: hello frame + handshake frame (+ data frames)
